@@ -574,6 +574,12 @@ func (o *vzOracles) checkViewContent(nd *vzNode, where string, v *tmconsensus.Ve
 			o.checkSparseAuthenticSet(nd, where, kind, v.Height, v.Round, v.ValidatorSet, []byte(sp.PubKeyHash), map[string][]gcrypto.SparseSignature{hash: sp.Signatures})
 		}
 	}
+	// C05: the previous commit proof a view carries verifies for the round it names
+	if o.on["C05"] && !nd.byz && v.Height > o.w.cfg.initialHeight && len(v.PrevCommitProof.Proofs) > 0 {
+		if vs, ok := o.valSetFor(v.Height - 1); ok {
+			o.checkSparseAuthenticSet(nd, where+"-view-prevcommit", "precommit", v.Height-1, v.PrevCommitProof.Round, vs, []byte(v.PrevCommitProof.PubKeyHash), v.PrevCommitProof.Proofs)
+		}
+	}
 	// C05: no proof entry without a signer (an all-invalid message must leave no trace)
 	if o.on["C05"] && !nd.byz {
 		var bs bitset.BitSet
